@@ -490,7 +490,10 @@ impl Check for C09 {
         let threads = match sc {
             Sc::Maker { threads, .. } | Sc::Pipeline { threads, .. } | Sc::SetPop { threads, .. } => *threads,
         };
-        if obs.audit && threads > 0 {
+        // (set populations: how many children collide depends on the random words, and those come from the
+        // repository's own thread-local generator — there is no seam for it —, so the counters vary between two
+        // executions although the verdict does not)
+        if obs.audit && (threads > 0 || matches!(sc, Sc::SetPop { .. })) {
             // real OS threads: only the (schedule-independent) verdict takes part in the determinism audit
             let mut scratch = Obs::default();
             return self.execute(sc, &mut scratch);
